@@ -188,18 +188,20 @@ Proof.
 Qed.
 
 Theorem re_match_prefix_spec : forall s r,
-  re_match_prefix ci r s = true <-> exists s1 s2, s = s1 ++ s2 /\ rm r s1.
+  re_match_prefix ci r s = true <->
+  exists s1 s2, s = s1 ++ s2 /\ rm r s1 /\ at_boundary s2 = true.
 Proof.
   induction s as [|c s IH]; intros r; cbn [re_match_prefix].
-  - rewrite orb_false_r, nullable_spec. split.
+  - rewrite orb_false_r, andb_true_r, nullable_spec. split.
     + intros H. exists [], []. auto.
-    + intros (s1 & s2 & E & H). symmetry in E. apply app_eq_nil in E as [-> ->]. auto.
-  - rewrite orb_true_iff, nullable_spec, IH. split.
-    + intros [H|(s1 & s2 & -> & H)].
+    + intros (s1 & s2 & E & H & _). symmetry in E. apply app_eq_nil in E as [-> ->]. auto.
+  - rewrite orb_true_iff, andb_true_iff, nullable_spec, IH. split.
+    + intros [[H B]|(s1 & s2 & -> & H & B)].
       * exists [], (c :: s). auto.
-      * exists (c :: s1), s2. split; auto. apply deriv_spec; auto.
-    + intros (s1 & s2 & E & H). destruct s1 as [|x s1]; auto.
-      cbn [app] in E. injection E as -> ->. right. exists s1, s2. split; auto. apply deriv_spec; auto.
+      * exists (c :: s1), s2. repeat split; auto. apply deriv_spec; auto.
+    + intros (s1 & s2 & E & H & B). destruct s1 as [|x s1].
+      * cbn [app] in E. subst s2. auto.
+      * cbn [app] in E. injection E as E1 E2; subst. right. exists s1, s2. repeat split; auto. apply deriv_spec; auto.
 Qed.
 
 End Deriv.
